@@ -1,4 +1,4 @@
-From SV Require Import Model.Common Model.FileWrite Model.Buffer.
+From SV Require Import Model.Common Model.FileWrite Model.Buffer Model.BufferStart.
 From Coq Require Import ExtrOcamlBasic.
 Definition run_line_model := run_line run_case_C03.
 Extraction "model.ml" run_line_model.
